@@ -11,6 +11,11 @@ read in THAT workspace, whether the endorsement file exists there).  A run is a 
 (one per attempt, consumed in order); the model's output is the list of calls the code makes on the
 backend (`Ev`) and the class of the returned error.
 
+Names: `Cfg.cand`, `outDir`, `snapDir`, `imageName`, `root` are ARBITRARY texts. Every path argument is
+computed the way the Go code computes it — `relOut` = ReleasePath(path.Join(OutDir, name)), `relSnap`,
+`basename` = path.Clean(candidate + ".binarypb") with the name test of defaultGenerateBasename (`nameOk`,
+`fix: refuse candidate names …`) — through the model of Go's package path in Model/Paths.lean.
+
 Dry-run (fixed code, `fix: dry run ...`): `tryChange` hands the change function a no-op ChangeOps
 (`dryRunOps`): reads answer "not found", writes and mode changes succeed without effect.  Calls on
 it are not backend calls and are therefore not events.
@@ -67,15 +72,14 @@ structure Cfg where
   imageName : String
 deriving Repr
 
-/-- go: path.Join(dir, base) for a plain directory name or the empty string (the default of --out_dir:
-    path.Join drops empty elements) and a plain base name. -/
-def joinDir (dir b : String) : String := if dir = "" then b else dir ++ "/" ++ b
+/-- go: path.Join(dir, base) — arbitrary texts (model of path.Join in Model/Paths.lean). -/
+def joinDir (dir b : String) : String := Paths.pjoin [dir, b]
 
-/-- go: endorse.releasePath (plain directory and base names: path.Join is concatenation). -/
-def relOut (c : Cfg) (b : String) : String := c.root ++ "/" ++ joinDir c.outDir b
-def relSnap (c : Cfg) (b : String) : String := c.root ++ "/" ++ c.snapDir ++ "/" ++ b
-
-def manifestFile : String := "manifest.textproto"
+/-- go: endorse.releasePath — `VCS.ReleasePath(path.Join(OutDir, basename))`, the ReleasePath of the
+    scripted double of streams c14/c15 being `root + "/" + p`. -/
+def relOut (c : Cfg) (b : String) : String := Paths.outPath .concat c.root c.outDir b
+/-- go: `VCS.ReleasePath(path.Join(SnapshotDir, name))` -/
+def relSnap (c : Cfg) (b : String) : String := Paths.release .concat c.root (joinDir c.snapDir b)
 
 /-- A planned ChangeOps call. -/
 structure Call where
@@ -90,9 +94,8 @@ def joinArgs (l : List String) : String := "+".intercalate l
 def snapshotCalls (c : Cfg) : List Call :=
   let fw := relSnap c c.imageName
   let sv := relSnap c "svsm.igvm"
-  let sigs := [fw ++ ".signed"] ++ (if c.svsm then [sv ++ ".signed"] else [])
-  let files := [fw, fw ++ ".evts.pb"] ++ (if c.scrtm then [fw ++ ".scrtm.pb"] else []) ++
-    (if c.svsm then [sv, sv ++ ".evts.pb"] ++ (if c.scrtm then [sv ++ ".scrtm.pb"] else []) else [])
+  let sigs := Paths.snapSigs fw sv c.svsm
+  let files := Paths.snapFiles fw sv c.svsm c.scrtm
   [⟨.writeFiles, joinArgs sigs, []⟩] ++ sigs.map (fun p => ⟨.chmod, p, []⟩) ++
   [⟨.writeFiles, joinArgs files, []⟩] ++ files.map (fun p => ⟨.chmod, p, []⟩)
 
@@ -109,18 +112,22 @@ def cWriteManifest (c : Cfg) (m : List Entry) : Call := ⟨.writeManifest, relOu
 
 /-- go: endorse.changeEndorsements / addEndorsement / defaultGenerateBasename / writeEndorsement,
     manifest mode on a real workspace: read the manifest (a read error other than not-found is the
-    call's failure; unparseable contents are an internal error), probe the endorsement file (exists
+    call's failure; unparseable contents are an internal error), refuse a candidate name whose cleaned
+    basename is rooted or climbs (internal error, nothing probed or written), probe the endorsement file (exists
     without --overwrite is an internal error), write it, make it binary, merge the entry into the
     manifest read HERE and write the manifest. -/
 def planManifest (c : Cfg) (e : Entry) (a : Attempt) : Plan :=
   if a.manifest = .garbage then ⟨[cReadManifest c], true, ""⟩
+  else if !nameOk c.cand then ⟨[cReadManifest c], true, ""⟩
   else if a.fileExists && !c.overwrite then ⟨[cReadManifest c, cReadFile c], true, ""⟩
   else ⟨[cReadManifest c, cReadFile c, cWriteFile c, cChmod c,
          cWriteManifest c (addEntry a.manifest.entries e)], false, basename c.cand⟩
 
 /-- Same function under dry-run: the manifest is not read (empty map), the probe / write / mode
     change go to the no-op ops (absent, succeed), the manifest is not written. -/
-def planDry (c : Cfg) : Plan := ⟨[cReadFile c, cWriteFile c, cChmod c], false, basename c.cand⟩
+def planDry (c : Cfg) : Plan :=
+  if !nameOk c.cand then ⟨[], true, ""⟩
+  else ⟨[cReadFile c, cWriteFile c, cChmod c], false, basename c.cand⟩
 
 /-- go: endorse.changeEndorsements for one workspace. -/
 def plan (c : Cfg) (e : Entry) (a : Attempt) : Plan :=
